@@ -3,6 +3,11 @@
 theorems : lean/GoldModel/Props/C09.lean — takeUntil_split, reslice_ends_at_terminator,
            top_unfold, post_independent, takeUntil_unterminated, reslice_unterminated_keeps_all,
            missing_end_reported; negation witness takeUntilOld_drops_last for the pinned take_until.
+           lean/GoldModel/Props/C09Prog.lean — the property for whole PROGRAMS: locality_partial(_memo)
+           (well-formed pre ++ [method] ++ post, any terminator-free replacement body that does not continue
+           the header: the other declarations' subtrees are those of the unmodified program, the diagnostics
+           are those of the statement parser on the body alone), outline_unchanged, diags_end_in_body,
+           truncated / truncated_wellformed; negation witness locality_full_fails (replayed below).
 tie      : `parse` correspondence on every original / mutated / truncated file.
 oracle   : on the implementation: the other declarations' subtrees, outline entries and
            diagnostics are unchanged, new diagnostics lie within the method's lines; a truncated
@@ -92,13 +97,17 @@ def run(ctx):
         "hand-written parser model tied by the `parse` correspondence; Python evaluation of the isolation rule on dumped trees",
     ]
     ctx.assumptions += [
-        "the theorems are about the slice mechanism and the fold structure of the top level (bodies that reach the slice); that the header of an intact "
-        "method consumes exactly the header tokens, that declarations BEFORE the method do not look into it, and that new diagnostics lie inside the "
-        "method are established by correspondence + oracle only (T5/T6 not proved)",
+        "Props/C09.lean is about the slice mechanism and the fold structure of the top level; Props/C09Prog.lean composes them with the declaration "
+        "round trip (C06Prog) into the property for whole programs: for WELL-FORMED surrounding declarations (the abstract syntax of Model/Prog.lean: "
+        "no comments, no OQL) and replacement bodies that do not continue the header (decidable guard; without it the statement is false, "
+        "locality_full_fails). Proved there: the header consumes exactly the header tokens, the declarations before and after keep their subtrees, "
+        "the diagnostics are those of the body parsed alone and (T5) end no later than the body's last line. NOT proved: a lower bound for the "
+        "positions of those diagnostics, and surrounding declarations outside the abstract syntax — correspondence + oracle only",
     ]
     if ctx.replay:
         return replay(ctx)
     ctx.prove("GoldModel.Props.C09")
+    ctx.prove("GoldModel.Props.C09Prog")
     if not ctx.build_harness():
         return ctx.finish(rule=RULE)
     q = ctx.tier == "quick"
@@ -157,6 +166,13 @@ def run(ctx):
             t2[gi] = list(h)
             pairs.append((o2, t2, gi, None, h))
             ctx.count("truncated right after the header")
+    # the negation witness of Props/C09Prog.lean (`locality_full_fails`: proc P / forward [ / endproc / const c = 1), replayed on
+    # the real parser: the correspondence compares it with the model, the oracle files it under the known finding
+    wh = [T("Proc", "proc"), T("Identifier", "P")]
+    wc = [T("Const", "const"), T("Identifier", "c"), T("Equals", "="), T("NumericLiteral", "1")]
+    wb = [T("Forward", "forward"), T("OSqrBracket")]
+    pairs.append(([wh + [T("EndProc", "endproc")], wc], [wh + wb + [T("EndProc", "endproc")], wc], 0, wb, wh))
+    ctx.count("negation witness of locality_full_fails replayed")
     lines = []
     for o, m, gi, b, h in pairs:
         lines.append(layout(o)[0])
